@@ -243,7 +243,7 @@ Section Bridge.
     assert (Hlen : (List.length (c :: w) <= List.length data + 1)%nat).
     { pose proof (at_pos_length (c :: w) i ltac:(discriminate) Hpos). lia. }
     unfold Scanner.next. cbn [c_finds]. unfold loop_fuel.
-    destruct (4 * List.length data + 16)%nat as [|fuel] eqn:Ef; [lia|].
+    destruct (8 * List.length data + 64)%nat as [|fuel] eqn:Ef; [lia|].
     apply at_pos_cons in Hpos as [Hp Hpos].
     erewrite next_loop_unfold; [|reflexivity|exact Hp]. cbn [c_step].
     cbn [kw_acc_start] in Hacc. unfold step_fuel.
@@ -269,7 +269,7 @@ Section Bridge.
     intros w i k a b [st ss fs es ps cur] Hpos Hrun Hlen Hs Hf Hc. cbn in Hs, Hf, Hc. subst.
     destruct w as [|c w]; [discriminate|].
     unfold Scanner.next. cbn [c_finds]. unfold loop_fuel.
-    destruct (4 * List.length data + 16)%nat as [|fuel] eqn:Ef; [lia|].
+    destruct (8 * List.length data + 64)%nat as [|fuel] eqn:Ef; [lia|].
     apply at_pos_cons in Hpos as [Hp Hpos].
     erewrite next_loop_unfold; [|reflexivity|exact Hp]. cbn [c_step].
     cbn [kw_run_start] in Hrun. unfold step_fuel.
